@@ -296,15 +296,18 @@ Theorem C02_settle_stake_shortfall_halts_refuted :
 Proof. exact NoHaltProofs.Settle.stake_shortfall_halts_refuted. Qed.
 Print Assumptions C02_settle_stake_shortfall_halts_refuted.
 
-(* without "one round" (F22/F12): in the sixth round the burn amount exceeds twice the slash amount and an
-   AGAINST result makes ExecuteVote ask for a negative amount *)
+(* without "one round" (F12): in the sixth round the burn amount exceeds twice the slash amount; with the code as found
+   (reporter's part = SlashAmount - BurnAmount) an AGAINST result made ExecuteVote ask for a negative amount and the
+   begin blocker failed (reproduced on the real application: history seed 9000002 with seven rounds); with the repair
+   that is in /repo now (FeeTotal - BurnAmount) the same accepted history executes *)
 Theorem C02_settle_sixth_round_halts_refuted :
   exists c s ops,
     NoHaltProofs.Settle.all_accepted DisputeSettle.repo_variant c s ops = true
     /\ DisputeSettle.s_id (DisputeSettle.run DisputeSettle.repo_variant c s ops) = 6
     /\ DisputeSettle.s_burn (DisputeSettle.run DisputeSettle.repo_variant c s ops) = 382500
+    /\ snd (DisputeSettle.exec_block_gen true false (DisputeSettle.run DisputeSettle.repo_variant c s ops)) = DisputeSettle.EOther
     /\ snd (DisputeSettle.step DisputeSettle.repo_variant c (DisputeSettle.run DisputeSettle.repo_variant c s ops)
-              DisputeSettle.OExecBlock) = DisputeSettle.EOther.
+              DisputeSettle.OExecBlock) = DisputeSettle.OK.
 Proof. exact NoHaltProofs.Settle.sixth_round_halts_refuted. Qed.
 Print Assumptions C02_settle_sixth_round_halts_refuted.
 
